@@ -4,6 +4,9 @@ Fault enumeration: for every generated trace (synthetic multi-chain traces from 
 run_phyclone_chain) EVERY byte prefix 0..len-1 of the written file is fed to every summary command (map in both modes,
 consensus in both weightings, topology report with archive).  Oracle: the command raises / fails, or its outputs are
 identical to those produced from the complete file (tables and Newick byte-identical; archive compared member by member).
+Real 2-chain runs (`extra`): a disk-full fault injected into the final write; the complete trace cut at every offset where
+a compressed block could start (gzip magic); a crash between two writes to the output path of a clustered run (second
+opening of the output for writing fails) - what is left must be rejected or give the complete run's results.
 """
 import contextlib
 import io
